@@ -3,7 +3,8 @@ from vlib.rtps_common import *
 
 RULE = ("a real RtpsStatefulWriter and a best-effort RtpsStatefulReader; 1-7 writes with payload sizes 0,1,f-1,f,f+1,2f,3f+1,... for "
         "f in {8,9,12,16,33,100,1000}, removals, late joiners, re-announcements of the match, and up to 40 adversary directives "
-        "(deliver any in-flight datagram, drop, duplicate) incl. fragments of one sample interleaved with later DATA; "
+        "(deliver any in-flight datagram, drop, duplicate) incl. fragments of one sample interleaved with later DATA; plus GAP-replay cases "
+        "(late joiner on a history with holes, a subset or all of the DATA and GAP datagrams duplicated, copies delivered last or first); "
         "non-trivial = >= 2 writes or a fragmented sample, >= 1 fault directive, >= 1 delivery")
 ASSUMPTIONS = ["the network does not forge datagrams (forgery is C06)",
                "one writer and one reader; sequence numbers assigned consecutively by the DCPS layer",
@@ -19,6 +20,12 @@ CORPUS = [
     ["init be vol 8", "match", "write p20.3", "write x0102", "deliver 0", "deliver 2", "flush"],
     # D4 exemplar (belongs to C04; here it is a correspondence case): a late best-effort VOLATILE reader gets old samples
     ["init be vol 8", "write x01", "write x02", "match", "write x03", "flush"],
+    # a late copy of an old GAP must not rewind the writer proxy: history {1,2,4,5} (3 removed), late best-effort TRANSIENT_LOCAL
+    # reader, every datagram duplicated, originals first: the copies of DATA 4 and 5 behind the second GAP(3) must be refused
+    ["init be tl 8", "write x01", "write x02", "write x03", "write x04", "write x05", "remove 3", "match", "tick 1",
+     "dup 0", "dup 1", "dup 2", "dup 3", "dup 4", "flush"],
+    # the same for a VOLATILE late joiner: GAP(1..3) duplicated after 4, 5 were delivered
+    ["init be vol 8", "write x01", "write x02", "write x03", "match", "write x04", "write x05", "dup 0", "flush", "dup 1", "dup 2"],
     # D42 exemplar (loss, not a C02 violation): the sample after a gap is never sent to a best-effort reader
     ["init be tl 8", "write x01", "write x02", "write x03", "remove 2", "match", "tick 1", "flush"],
 ]
@@ -37,6 +44,8 @@ def run(ctx):
     n = 400 if ctx.tier == "quick" else 8000
     for k in range(n):
         cases.append(gen_system_case(r, cfg, rel=False, rematch=(k % 4 == 0)))
+    for k in range(n // 3):
+        cases.append(gen_gap_replay_case(r, cfg, rel=False))
     count_ops(ctx, cases)
     ctx.differential(ENGINE, cases, nontrivial=nontrivial_system, oracle=oracle)
 
